@@ -17,6 +17,7 @@
    'ghost': '__CPROVER_assert(2 * g_t < g_maxlen, "reversal loop: never more than maxlen/2 swaps"); __CPROVER_assume(2 * g_t < g_maxlen); g_t = g_t + 1;'},
  ],
  'witness': {'unwind': 70},
+ 'fallback': 'ghost-free',   # the witness-mode harness recomputes its reference without the ghost statements
 } @*/
 /* derived from i32toa.c (same injected ghost code): vt100_left calls igris_i32toa(arg, buf + 2, 10) */
 #include "vc.h"
